@@ -97,7 +97,8 @@ def random_env_op(rng, n, images=("img:1", "img:2", "img:3"), allow_cmds=True, n
     return {"op": "restart"}
 
 
-def gen_history(rng, stats=None, n=None, canary=None, length=None, fair_tail=0, allow_cmds=True, faults=False):
+def gen_history(rng, stats=None, n=None, canary=None, length=None, fair_tail=0, allow_cmds=True, faults=False, podtemplate=False,
+                edit_bias=0.0, fail_bias=0.0):
     """fresh ExtendedDaemonSet -> first rollout -> random interleaving of reconciles and environment actions"""
     n = n if n is not None else rng.choice([2, 3, 4, 5, 6])
     canary = canary if canary is not None else rng.random() < 0.6
@@ -105,6 +106,15 @@ def gen_history(rng, stats=None, n=None, canary=None, length=None, fair_tail=0, 
     ops = rollout_ops(rng, rng.choice([2, 3, 4]))          # defaulting, replica set, first pods
     length = length if length is not None else rng.choice([8, 12, 20, 30])
     for _ in range(length):
+        if podtemplate and rng.random() < 0.15:
+            ops.append(K.reconcile("podtemplate", NS, EDS))
+            continue
+        if edit_bias and rng.random() < edit_bias:
+            ops.append(edit("ExtendedDaemonSet", NS, EDS, "image:" + rng.choice(["img:1", "img:2", "img:3"])))
+            continue
+        if fail_bias and rng.random() < fail_bias:
+            ops.append(K.cmd("canary_fail", NS, EDS))
+            continue
         r = rng.random()
         if r < 0.3:
             f = None
